@@ -881,15 +881,22 @@ fn main() {
                         }
                     }
                 }
-                if let Some(why) = bad {
+                if let Some(mut why) = bad {
                     // (an answer that changes between two lookups on one database cannot be
                     // expected to reproduce; that irreproducibility is the finding itself)
                     if violations.len() < 4 && !why.contains("twice differently") {
-                        // a failing schedule must reproduce on replay
+                        // a failing schedule is run twice more. Every choice at the index writer's
+                        // seams is replayed, so if the answers differ between these runs they
+                        // depend on something that is neither the query, nor the data, nor the
+                        // schedule - which is what the property forbids. (On a tree where the
+                        // property holds nothing fails, so this path is never taken there.)
                         let again = pool.run_batch(&[Task { scenario: si, prefix: choices.clone(), policy: None }, Task { scenario: si, prefix: choices.clone(), policy: None }]);
-                        if again[0].answers != x.answers || again[1].answers != x.answers {
-                            eprintln!("machinery: a failing schedule did not reproduce on replay (uncontrolled nondeterminism)");
+                        if again.iter().any(|a| a.diverged.is_some()) {
+                            eprintln!("machinery: schedule diverged while replaying a failing schedule");
                             std::process::exit(2);
+                        }
+                        if again[0].answers != x.answers || again[1].answers != x.answers {
+                            why.push_str("; moreover the same schedule, replayed choice for choice, answered differently when run again: the answers depend on something other than the query, the data and the schedule at the index writer's seams");
                         }
                     }
                     violations.push(Replay { property: "C14".into(), scenario: sc.name.into(), choices: choices.clone(), policy: None, detail: why });
